@@ -264,6 +264,26 @@ def r7(p, rep):
             rep.ok("C03.R7", f"{f.qualname}:locals", f.loc, f"{len(da.locals)} locals are assigned on every path before each read")
 
 
+def _returns_only_if_equal(g):
+    """pairs of parameters (a, b) such that every normal exit of g is reached only with a == b (the function raises
+    otherwise): `if a != b: raise ...`  or  `if a == b: return` followed by a raise"""
+    from sa.cfg import CFG
+
+    cfg = CFG(g.node)
+    exits = [n for n in cfg.exit.pred]
+    if not exits:
+        return []
+    common_pairs = None
+    for e in exits:
+        pairs = set()
+        for t, pol in cfg.guards(e) + ([(e.test, e.polarity)] if e.kind == "edge" and e.test is not None else []):
+            if isinstance(t, ast.Compare) and len(t.ops) == 1 and isinstance(t.left, ast.Name) and isinstance(t.comparators[0], ast.Name):
+                if (isinstance(t.ops[0], ast.Eq) and pol) or (isinstance(t.ops[0], ast.NotEq) and not pol):
+                    pairs.add((t.left.id, t.comparators[0].id))
+                    pairs.add((t.comparators[0].id, t.left.id))
+        common_pairs = pairs if common_pairs is None else common_pairs & pairs
+    return sorted(p for p in (common_pairs or ()) if p[0] in g.params and p[1] in g.params)
+
 def r8(p, rep):
     rep.rule("C03.R8", "sequences that come from different arguments of a validation entry point are zipped only after their lengths were compared (a surplus / missing tensor is an error, not silently truncated)", "T-DOM (length comparison dominates zip(strict=False))", floor=3)
     from sa.cfg import CFG
@@ -283,7 +303,21 @@ def r8(p, rep):
             cfg = cfg or CFG(f.node)
             a1, a2 = norm(c.args[0]), norm(c.args[1])
             ok = False
-            for t, pol in cfg.guards_of_ast(c):
+            facts = list(cfg.guards_of_ast(c))
+            # a dominating call of a checking helper `check(len(a), len(b))` whose body raises when its two
+            # parameters differ establishes the same fact
+            dom = cfg.dominators().get(cfg.node_for(c).id, ())
+            for nd in cfg.nodes:
+                if nd.id in dom and nd.kind == "stmt" and isinstance(nd.ast, ast.Expr) and isinstance(nd.ast.value, ast.Call):
+                    hc = nd.ast.value
+                    r = resolve_callee(p, hc, f.module)
+                    if r and r[0] == "func":
+                        g = r[1]
+                        amap = {g.params[i]: a for i, a in enumerate(hc.args) if i < len(g.params)}
+                        for a_, b_ in _returns_only_if_equal(g):
+                            if a_ in amap and b_ in amap:
+                                facts.append((ast.Compare(left=amap[a_], ops=[ast.Eq()], comparators=[amap[b_]]), True))
+            for t, pol in facts:
                 if isinstance(t, ast.Compare) and len(t.ops) == 1 and isinstance(t.ops[0], (ast.Eq, ast.NotEq)):
                     sides = {norm(t.left), norm(t.comparators[0])}
                     lens = {f"len({x})" for x in (a1, a2)}
